@@ -301,8 +301,8 @@ def c08(tier='quick', seed=0):
         scope_sets += [list(p) for p in itertools.permutations(['system', 'domain', 'project'], k)]
     for st in scope_sets:
         for sysv, dom, proj in itertools.product([None, 'all'], [None, 'd1'], [None, 'p1']):
-            for spelling in ('system_scope', 'system', 'both-none'):
-                if sysv is None and spelling == 'system':
+            for spelling in ('system_scope', 'system', 'both-none', 'system+scope-none', 'system+scope-empty'):
+                if sysv is None and spelling in ('system', 'system+scope-none', 'system+scope-empty'):
                     continue
                 for enforce_scope in (True, False):
                     for do_raise in (False, True):
@@ -333,7 +333,11 @@ def c08(tier='quick', seed=0):
                                                 creds['domain_id'] = dom
                                             if proj:
                                                 creds['project_id'] = proj
-                                            if sysv:
+                                            if sysv and spelling in ('system+scope-none', 'system+scope-empty'):
+                                                # legacy spelling on top of a mapping that carries an unset system_scope
+                                                creds['system'] = sysv
+                                                creds['system_scope'] = None if spelling.endswith('none') else ''
+                                            elif sysv:
                                                 creds['system' if spelling == 'system' else 'system_scope'] = sysv
                                             elif spelling == 'both-none':
                                                 creds['system_scope'] = None
